@@ -87,6 +87,8 @@ class MemoKeys:
         self.calls = {}        # callee -> [(unit, caller, call node)]
         self.stores = {}       # (rec, field) -> [(unit, fn, rhs node | None, node)]
         self.init_listed = set()
+        self._omemo = {}
+        self._rmemo = {}
         for f, (un, fd) in self.fn.items():
             self._index(un, f, fd)
 
@@ -128,6 +130,25 @@ class MemoKeys:
 
     # ---- where does the value of an expression come from
     def origin(self, f, e, depth=0):
+        k = (f, id(e))
+        r = self._omemo.get(k)
+        if r is None:
+            r = self._omemo[k] = self._origin(f, e, depth)
+        return r
+
+    def _ret_summary(self, c):
+        """index of the parameter a function of the program returns on every path | 'fresh' (a string it has made) | None"""
+        if c not in self._rmemo:
+            self._rmemo[c] = None          # recursion guard
+            rets = [self.origin(c, r.inner[0], 1) for r in self.fn[c][1].find('ReturnStmt') if r.inner]
+            js = {o[2] for o in rets if o[0] == 'param' and o[1] == c}
+            if rets and all(o[0] == 'param' and o[1] == c for o in rets) and len(js) == 1:
+                self._rmemo[c] = min(js)
+            elif self._fresh_result(c):
+                self._rmemo[c] = 'fresh'
+        return self._rmemo[c]
+
+    def _origin(self, f, e, depth=0):
         e = e.strip_all()
         if depth > 8:
             return ('expr', 'too-deep')
@@ -157,11 +178,10 @@ class MemoKeys:
                 return self.origin(f, e.args()[0], depth + 1)
             if c in self.fn and c not in self.dup:
                 # a function of the program that returns one of its parameters on every path
-                rets = [self.origin(c, r.inner[0], depth + 1) for r in self.fn[c][1].find('ReturnStmt') if r.inner]
-                js = {o[2] for o in rets if o[0] == 'param' and o[1] == c}
-                if rets and all(o[0] == 'param' and o[1] == c for o in rets) and len(js) == 1 and len(e.args()) > min(js):
-                    return self.origin(f, e.args()[min(js)], depth + 1)
-                return ('call', c, not self._fresh_result(c))
+                rs = self._ret_summary(c)
+                if isinstance(rs, int) and len(e.args()) > rs:
+                    return self.origin(f, e.args()[rs], depth + 1)
+                return ('call', c, rs != 'fresh')
             return ('call', c or '?', False)
         return ('expr', e.kind)
 
